@@ -220,7 +220,12 @@ Qed.
 
 (* no deferred object inside => evaluation leaves the value alone, and it contributes neither edges nor dependencies *)
 Theorem plain_value_is_inert rec v st :
-  plain v -> subst rec v None st [] = (st, Ok v) /\ refs_shallow v = [] /\ refs_all v = [].
+  plain v -> subst rec v None st [] = (st, Ok v) /\ refs_edge v = [] /\ refs_all v = [].
 Proof.
   intros Hp. split; [now rewrite subst_plain|]. split; now apply scan_plain.
 Qed.
+
+(* since the repair of add_edge the recorded predecessors of a node are exactly the deferred objects that
+   evaluating the node evaluates, at every container depth *)
+Theorem recorded_edges_are_all_dependencies nd : deps_edge nd = deps_all nd.
+Proof. reflexivity. Qed.
